@@ -122,6 +122,114 @@ theorem optPart_inj {o o' : Option (List Bytes)}
       obtain ⟨h1', h2'⟩ := truthy_some ht'
       rw [join_inj_ne h2 h2' (h l h1) (h' l' h1') he]
 
+/-! ### escape-then-join is injective for arbitrary names -/
+
+/-- reading the names back: `\x` is the character `x`, a bare `:` ends a name -/
+def unesc : Bytes → Bytes → List Bytes
+  | [], cur => [cur]
+  | c :: r, cur =>
+    if c = 92 then
+      match r with
+      | d :: r' => unesc r' (cur ++ [d])
+      | [] => [cur ++ [c]]
+    else if c = 58 then cur :: unesc r []
+    else unesc r (cur ++ [c])
+
+theorem unesc_plain (c : Nat) (r cur : Bytes) (h1 : c ≠ 92) (h2 : c ≠ 58) :
+    unesc (c :: r) cur = unesc r (cur ++ [c]) := by
+  rw [unesc.eq_def]; simp only [h1, h2, if_false]
+
+theorem unesc_colon (r cur : Bytes) : unesc (58 :: r) cur = cur :: unesc r [] := by
+  rw [unesc.eq_def]; simp
+
+theorem unesc_bs (d : Nat) (r cur : Bytes) : unesc (92 :: d :: r) cur = unesc r (cur ++ [d]) := by
+  rw [unesc.eq_def]; simp
+
+theorem unesc_esc (n rest cur : Bytes) : unesc (esc n ++ rest) cur = unesc rest (cur ++ n) := by
+  induction n generalizing cur with
+  | nil => simp [esc]
+  | cons c r ih =>
+    rw [esc]
+    by_cases h : c = 92 ∨ c = 58
+    · rw [if_pos h]
+      simp only [List.cons_append, List.nil_append]
+      rw [unesc_bs, ih]
+      simp only [List.append_assoc, List.cons_append, List.nil_append]
+    · rw [if_neg h]
+      have h1 : c ≠ 92 := fun e => h (Or.inl e)
+      have h2 : c ≠ 58 := fun e => h (Or.inr e)
+      simp only [List.cons_append, List.nil_append]
+      rw [unesc_plain _ _ _ h1 h2, ih]
+      simp only [List.append_assoc, List.cons_append, List.nil_append]
+
+theorem unesc_joinNames (n : Bytes) (ns : List Bytes) : unesc (joinNames (n :: ns)) [] = n :: ns := by
+  induction ns generalizing n with
+  | nil =>
+    have := unesc_esc n [] []
+    simp only [List.append_nil, List.nil_append] at this
+    simp only [joinNames, List.map_cons, List.map_nil, join_single, this]
+    rw [unesc.eq_def]
+  | cons m ns ih =>
+    have ih' := ih m
+    simp only [joinNames, List.map_cons] at ih' ⊢
+    rw [join_cons_cons, unesc_esc, unesc_colon]
+    simp only [List.nil_append, ih']
+
+theorem joinNames_inj {l l' : List Bytes} (hl : l ≠ []) (hl' : l' ≠ [])
+    (h : joinNames l = joinNames l') : l = l' := by
+  cases l with
+  | nil => exact absurd rfl hl
+  | cons a l =>
+    cases l' with
+    | nil => exact absurd rfl hl'
+    | cons b l' =>
+      have := congrArg (fun x => unesc x []) h
+      simpa only [unesc_joinNames] using this
+
+theorem mem_esc {y : Nat} : ∀ {n : Bytes}, y ∈ esc n → y = 92 ∨ y ∈ n
+  | [], h => by simp [esc] at h
+  | c :: r, h => by
+    rw [esc] at h
+    rcases List.mem_append.mp h with h | h
+    · split at h
+      · simp only [List.mem_cons, List.not_mem_nil, or_false] at h
+        rcases h with h | h
+        · exact Or.inl h
+        · exact Or.inr (by simp [h])
+      · simp only [List.mem_cons, List.not_mem_nil, or_false] at h
+        exact Or.inr (by simp [h])
+    · rcases mem_esc h with h | h
+      · exact Or.inl h
+      · exact Or.inr (List.mem_cons_of_mem _ h)
+
+theorem zero_notin_joinNames {l : List Bytes} (h : ∀ a ∈ l, 0 ∉ a) : 0 ∉ joinNames l := by
+  intro hm
+  rcases mem_join hm with h0 | ⟨a, ha, h0⟩
+  · omega
+  · obtain ⟨n, hn, rfl⟩ := List.mem_map.mp ha
+    rcases mem_esc h0 with h0 | h0
+    · omega
+    · exact h n hn h0
+
+theorem optNames_cases (o : Option (List Bytes)) :
+    (optNames o = [] ∧ truthy o = none) ∨ ∃ l, optNames o = [joinNames l] ∧ truthy o = some l := by
+  unfold optNames
+  cases truthy o with
+  | none => exact Or.inl ⟨rfl, rfl⟩
+  | some l => exact Or.inr ⟨l, rfl, rfl⟩
+
+/-- no hypothesis on the names -/
+theorem optNames_inj {o o' : Option (List Bytes)} (he : optNames o = optNames o') :
+    truthy o = truthy o' := by
+  rcases optNames_cases o with ⟨h1, h2⟩ | ⟨l, h1, h2⟩ <;>
+    rcases optNames_cases o' with ⟨h1', h2'⟩ | ⟨l', h1', h2'⟩
+  · rw [h2, h2']
+  · rw [h1, h1'] at he; cases he
+  · rw [h1, h1'] at he; cases he
+  · rw [h1, h1'] at he
+    simp only [List.cons.injEq, and_true] at he
+    rw [h2, h2', joinNames_inj (truthy_some h2).2 (truthy_some h2').2 he]
+
 theorem id_inj_coll {ct ct' : Bytes} {subs subs' : List Bytes} {names names' : Option (List Bytes)}
     (hs : (IdKey.coll ct subs names).NoSep) (hs' : (IdKey.coll ct' subs' names').NoSep)
     (hc : (IdKey.coll ct subs names).callerShaped) (hc' : (IdKey.coll ct' subs' names').callerShaped)
@@ -142,28 +250,27 @@ theorem id_inj_coll {ct ct' : Bytes} {subs subs' : List Bytes} {names names' : O
     · rw [if_neg h1, if_pos h2] at he; cases he
     · rw [if_neg h1, if_neg h2, Option.some.injEq] at he
       have hp : ∀ (ct : Bytes) (subs : List Bytes) (names : Option (List Bytes)), 0 ∉ ct →
-          (∀ s ∈ subs, sepFree s ∧ s ≠ []) → (∀ ns, names = some ns → ∀ n ∈ ns, sepFree n) →
-          ∀ a ∈ [ct, join 58 subs] ++ optPart names, 0 ∉ a := by
+          (∀ s ∈ subs, sepFree s ∧ s ≠ []) → (∀ ns, names = some ns → ∀ n ∈ ns, 0 ∉ n) →
+          ∀ a ∈ [ct, join 58 subs] ++ optNames names, 0 ∉ a := by
         intro ct subs names h0 hs hn a ha
         simp only [List.cons_append, List.nil_append, List.mem_cons] at ha
         rcases ha with rfl | rfl | ha
         · exact h0
         · exact zero_notin_join58 (fun a ha => (hs a ha).1.1)
-        · unfold optPart at ha
+        · unfold optNames at ha
           cases ht : truthy names with
           | none => rw [ht] at ha; cases ha
           | some l =>
             rw [ht] at ha
             rw [List.mem_singleton.mp ha]
-            exact zero_notin_join58 (fun a ha => (hn l (truthy_some ht).1 a ha).1)
+            exact zero_notin_joinNames (fun a ha => hn l (truthy_some ht).1 a ha)
       have := join_inj_ne (by simp) (by simp) (hp ct subs names hct hsubs hnames)
         (hp ct' subs' names' hct' hsubs' hnames') he
       simp only [List.cons_append, List.nil_append, List.cons.injEq] at this
       obtain ⟨e1, e2, e3⟩ := this
       have es := join_inj (fun a ha => ⟨(hsubs a ha).1.2, (hsubs a ha).2⟩)
         (fun a ha => ⟨(hsubs' a ha).1.2, (hsubs' a ha).2⟩) e2
-      have en := optPart_inj (fun ns h n hn => (hnames ns h n hn).2)
-        (fun ns h n hn => (hnames' ns h n hn).2) e3
+      have en := optNames_inj e3
       rw [e1, es, en]
 
 theorem id_inj_setOf {s s' : Bytes} (he : idPreimage (.setOf s) = idPreimage (.setOf s')) :
@@ -356,19 +463,19 @@ theorem id_inj_shape {base base' : Bytes} {subs subs' : List Bytes}
   have elp := reprOptBools_inj hlp
   -- the `\0`-separated parts
   have hnul : ∀ (base : Bytes) (subs : List Bytes) (names : Option (List Bytes)) (cards : Option (List Nat)),
-      0 ∉ base → (∀ s ∈ subs, sepFree s ∧ s ≠ []) → (∀ ns, names = some ns → ∀ n ∈ ns, sepFree n) →
+      0 ∉ base → (∀ s ∈ subs, sepFree s ∧ s ≠ []) → (∀ ns, names = some ns → ∀ n ∈ ns, 0 ∉ n) →
       (∀ cs, cards = some cs → ∀ c ∈ cs, c ≠ 0 ∧ c ≠ 58) →
-      ∀ a ∈ [base, join 58 subs] ++ optPart names ++ optPart (cardChars cards), 0 ∉ a := by
+      ∀ a ∈ [base, join 58 subs] ++ optNames names ++ optPart (cardChars cards), 0 ∉ a := by
     intro base subs names cards h0 hs hn hcd a ha
     simp only [List.cons_append, List.nil_append, List.mem_cons, List.mem_append] at ha
     rcases ha with rfl | rfl | ha | ha
     · exact h0
     · exact zero_notin_join58 (fun a ha => (hs a ha).1.1)
-    · rcases optPart_cases names with ⟨h1, _⟩ | ⟨l, h1, h2⟩
+    · rcases optNames_cases names with ⟨h1, _⟩ | ⟨l, h1, h2⟩
       · rw [h1] at ha; cases ha
       · rw [h1] at ha
         rw [List.mem_singleton.mp ha]
-        exact zero_notin_join58 (fun a ha => (hn l (truthy_some h2).1 a ha).1)
+        exact zero_notin_joinNames (fun a ha => hn l (truthy_some h2).1 a ha)
     · rcases optPart_cases (cardChars cards) with ⟨h1, _⟩ | ⟨l, h1, h2⟩
       · rw [h1] at ha; cases ha
       · rw [h1] at ha
@@ -390,10 +497,15 @@ theorem id_inj_shape {base base' : Bytes} {subs subs' : List Bytes}
     rcases optPart_cases o with ⟨h, _⟩ | ⟨l, h, _⟩
     · exact Or.inl h
     · exact Or.inr ⟨_, h⟩
+  have hshn : ∀ (o : Option (List Bytes)), optNames o = [] ∨ ∃ a, optNames o = [a] := by
+    intro o
+    rcases optNames_cases o with ⟨h, _⟩ | ⟨l, h, _⟩
+    · exact Or.inl h
+    · exact Or.inr ⟨_, h⟩
   have hdep : ∀ (subs : List Bytes) (names : Option (List Bytes)) (cards : Option (List Nat)),
       (∀ ns, names = some ns → ns.length = subs.length) →
       (∀ cs, cards = some cs → cs.length = subs.length ∧ names.isSome = true) →
-      optPart names = [] → optPart (cardChars cards) = [] := by
+      optNames names = [] → optPart (cardChars cards) = [] := by
     intro subs names cards h1 h2 hn
     rcases optPart_cases (cardChars cards) with ⟨h, _⟩ | ⟨l, h, ht⟩
     · exact h
@@ -403,17 +515,16 @@ theorem id_inj_shape {base base' : Bytes} {subs subs' : List Bytes}
       obtain ⟨hl, hsome⟩ := h2 cs hcs1
       obtain ⟨ns, rfl⟩ := Option.isSome_iff_exists.mp hsome
       have hnl := h1 ns rfl
-      rcases optPart_cases (some ns) with ⟨_, h⟩ | ⟨l, h, _⟩
+      rcases optNames_cases (some ns) with ⟨_, h⟩ | ⟨l, h, _⟩
       · cases ns with
         | nil => cases cs with
           | nil => exact hcs2 rfl
           | cons c cs => simp at hl hnl; omega
         | cons n ns => simp [truthy] at h
       · rw [h] at hn; cases hn
-  obtain ⟨en, ec⟩ := two_opt_parts (hsh names) (hsh _) (hsh names') (hsh _)
+  obtain ⟨en, ec⟩ := two_opt_parts (hshn names) (hsh _) (hshn names') (hsh _)
     (hdep subs names cards hcn hcc) (hdep subs' names' cards' hcn' hcc') e3
-  have en' := optPart_inj (fun ns h n hn => (hnames ns h n hn).2)
-    (fun ns h n hn => (hnames' ns h n hn).2) en
+  have en' := optNames_inj en
   have ec' : truthy cards = truthy cards' := by
     rcases optPart_cases (cardChars cards) with ⟨h1, h2⟩ | ⟨l, h1, h2⟩
     · rw [h1] at ec
@@ -443,8 +554,8 @@ end EdbVerif.Desc
 
 namespace EdbVerif.Desc
 
-/-- **the id strings determine the arguments** (per id function) when no text
-    contains a separator -/
+/-- **the id strings determine the arguments** (per id function); element names
+    are arbitrary NUL-free texts -/
 theorem id_inj (k₁ k₂ : IdKey) (hfn : k₁.fn = k₂.fn) (h₁ : k₁.NoSep) (h₂ : k₂.NoSep)
     (c₁ : k₁.callerShaped) (c₂ : k₂.callerShaped) (he : idPreimage k₁ = idPreimage k₂) :
     k₁.norm = k₂.norm := by
@@ -475,9 +586,9 @@ def collA : IdKey := .coll asciiTuple [int64Str, int64Str] (some [[97, 58, 98], 
 /-- `(a := <int64>, `b:c` := <int64>)` -/
 def collB : IdKey := .coll asciiTuple [int64Str, int64Str] (some [[97], [98, 58, 99]])
 
-theorem coll_collision : idPreimage collA = idPreimage collB ∧ collA.norm ≠ collB.norm ∧
-    collA.callerShaped ∧ collB.callerShaped := by
-  refine ⟨by decide, by decide, ?_, ?_⟩ <;>
+theorem coll_collision : idPreimageBuggy collA = idPreimageBuggy collB ∧ collA.norm ≠ collB.norm ∧
+    idPreimage collA ≠ idPreimage collB ∧ collA.callerShaped ∧ collB.callerShaped := by
+  refine ⟨by decide, by decide, by decide, ?_, ?_⟩ <;>
   · intro ns h
     simp only [Option.some.injEq] at h
     subst h; rfl
@@ -487,7 +598,36 @@ def shapeA : IdKey := .shape [84] [int64Str, int64Str] (some [[97, 58, 98], [99]
 def shapeB : IdKey := .shape [84] [int64Str, int64Str] (some [[97], [98, 58, 99]]) (some [65, 65])
   (some [false, false]) (some [false, false]) false
 
-theorem shape_collision : idPreimage shapeA = idPreimage shapeB ∧ shapeA.norm ≠ shapeB.norm := by
-  refine ⟨by decide, by decide⟩
+theorem shape_collision : idPreimageBuggy shapeA = idPreimageBuggy shapeB ∧ shapeA.norm ≠ shapeB.norm ∧
+    idPreimage shapeA ≠ idPreimage shapeB := by
+  refine ⟨by decide, by decide, by decide⟩
+
+end EdbVerif.Desc
+
+namespace EdbVerif.Desc
+
+theorem int64Str_ok : sepFree int64Str ∧ int64Str ≠ [] := ⟨⟨by decide, by decide⟩, by decide⟩
+
+theorem collA_noSep : collA.NoSep := by
+  refine ⟨by decide, ?_, ?_⟩
+  · intro s hs
+    simp only [List.mem_cons, List.not_mem_nil, or_false, or_self] at hs
+    subst hs; exact int64Str_ok
+  · intro ns h n hn
+    simp only [Option.some.injEq] at h
+    subst h
+    simp only [List.mem_cons, List.not_mem_nil, or_false] at hn
+    rcases hn with rfl | rfl <;> decide
+
+theorem collB_noSep : collB.NoSep := by
+  refine ⟨by decide, ?_, ?_⟩
+  · intro s hs
+    simp only [List.mem_cons, List.not_mem_nil, or_false, or_self] at hs
+    subst hs; exact int64Str_ok
+  · intro ns h n hn
+    simp only [Option.some.injEq] at h
+    subst h
+    simp only [List.mem_cons, List.not_mem_nil, or_false] at hn
+    rcases hn with rfl | rfl <;> decide
 
 end EdbVerif.Desc
